@@ -100,6 +100,7 @@ Record dec_obs := mkDecObs {
   d_reparsed : result address;          (* Address::from_bytes of those *)
   d_embedded : result address;          (* address of a transaction output decoded from [bytes, coin] *)
   d_emb_bytes : option bytes;           (* the address bytes inside the re-serialised output *)
+  d_hex : result address;               (* Address::from_hex of the hex text of the bytes *)
   d_byron : result byron_addr;          (* ByronAddress::from_bytes *)
   d_reward : result address }.          (* RewardAddress as a withdrawals key *)
 
@@ -112,12 +113,15 @@ Definition model_dec (data : bytes) : dec_obs :=
     (match s with Ok a => from_bytes (to_bytes a) | _ => Err end)
     e
     (match e with Ok a => Some (to_bytes a) | _ => None end)
+    s
     (byron_from_bytes crc32 data)
     (reward_address_decode data).
 
 (* the two halves of the statement are judged independently; a failure outside the known classes
    is never hidden by a known one *)
 Definition judge_dec_strict (data : bytes) (o : dec_obs) : verdict :=
+  (* from_hex is the same strict parser behind a hex decoder *)
+  if negb (res_eqb address_eqb (d_hex o) (d_strict o)) then Fails (panic_class data) else
   match d_strict o with
   | Ok a =>
       if spec_strict_ok data && agrees_with_header a data
@@ -257,4 +261,27 @@ Definition model_bechd (s : list N) : option (list N * list N) * option (result 
   match decode s with
   | Ok (h, d) => (Some (h, d), Some (from_base32 d))
   | _ => (None, None)
+  end.
+
+(* ---------------- case `b58a`: Base58 text through the Byron entry points ---------------- *)
+(* ByronAddress::from_base58 / is_valid on arbitrary text: accepted exactly when the decoded bytes
+   are a complete Byron address (nothing after it), and then the text written back is the Base58 of
+   the canonical bytes *)
+Definition judge_b58a (text : list N) (valid : bool) (r : result byron_addr) (back : option (list N)) : verdict :=
+  let expected := byron_from_base58 text in
+  if res_eqb byron_eqb r expected && Bool.eqb valid (is_ok expected)
+     && (match r, back with
+         | Ok b, Some t => bytes_eqb t (byron_to_base58 b)
+         | Ok _, None => false
+         | _, _ => true
+         end)
+  then Holds else Fails 0.
+
+(* ---------------- case `becha`: a bech32 text whose payload is arbitrary bytes ---------------- *)
+(* Address::from_bech32: the payload goes through the strict parser (trailing bytes refused) *)
+Definition judge_becha (payload : bytes) (r : result address) : verdict :=
+  match r with
+  | Ok a => if spec_strict_ok payload && agrees_with_header a payload then Holds else Fails 0
+  | Err => if spec_strict_ok payload then Fails 0 else Holds
+  | _ => Fails (panic_class payload)
   end.
